@@ -7,21 +7,28 @@
   Int64. Every theorem is followed by an `example` showing its statement is not vacuous.
 -/
 import BlocV.Proofs.Lemmas.Int64
+import BlocV.Proofs.Lemmas.Float
+import BlocV.Model.Typing
+import BlocV.Model.Builtins
 
 namespace BlocV.C03
 open BlocV BlocV.Lemmas
 
 /-! ### + − * unary− : exact result reduced modulo 2^64, for all operands -/
 
+/-- `a + b` (op_add.cpp, computed in uint64_t and converted back): the exact sum reduced modulo 2^64 into [−2^63, 2^63), for all operands. -/
 theorem add_exact (a b : Int64) : (Num.iadd a b).toInt = Spec.add a.toInt b.toInt := by
   simp [Num.iadd, Spec.add, Spec.wrap, Int64.toInt_add]
 
+/-- `a - b` (op_sub.cpp): the exact difference reduced modulo 2^64, for all operands. -/
 theorem sub_exact (a b : Int64) : (Num.isub a b).toInt = Spec.sub a.toInt b.toInt := by
   simp [Num.isub, Spec.sub, Spec.wrap, Int64.toInt_sub]
 
+/-- `a * b` (op_mul.cpp): the exact product reduced modulo 2^64, for all operands. -/
 theorem mul_exact (a b : Int64) : (Num.imul a b).toInt = Spec.mul a.toInt b.toInt := by
   simp [Num.imul, Spec.mul, Spec.wrap, Int64.toInt_mul]
 
+/-- Unary minus (op_neg.cpp, `0 - a` in uint64_t): the exact negation reduced modulo 2^64 (so `-MIN = MIN`). -/
 theorem neg_exact (a : Int64) : (Num.ineg a).toInt = Spec.neg a.toInt := by
   simp [Num.ineg, Spec.neg, Spec.wrap]
 
@@ -42,6 +49,7 @@ def mapInt : Res Int64 → Res Int
   | .haz h => .haz h
   | .unmodelled => .unmodelled
 
+/-- `a / b` (op_div.cpp): DIVIDE_BY_ZERO when `b = 0`, otherwise the quotient truncated toward zero (reduced modulo 2^64, which only matters for `MIN / -1 = MIN`), for all operands. -/
 theorem div_spec (a b : Int64) : mapInt (Num.idiv a b) = ofIRes (Spec.div a.toInt b.toInt) := by
   unfold Num.idiv Spec.div
   by_cases hb : b = 0
@@ -60,6 +68,7 @@ theorem div_spec (a b : Int64) : mapInt (Num.idiv a b) = ofIRes (Spec.div a.toIn
       congr 1
       rw [Int64.toInt_div]; rfl
 
+/-- `a % b` (op_mod.cpp): DIVIDE_BY_ZERO when `b = 0`, otherwise the remainder of the truncating division (sign of the dividend; `MIN % -1 = 0`), for all operands. -/
 theorem mod_spec (a b : Int64) : mapInt (Num.imod a b) = ofIRes (Spec.mod a.toInt b.toInt) := by
   unfold Num.imod Spec.mod
   by_cases hb : b = 0
@@ -100,6 +109,7 @@ example : Num.idiv 1 0 = .err Gen.EXC_RT_DIVIDE_BY_ZERO := by decide
 
 /-! ### << >> : zero fill, negative displacement reverses, |displacement| ≥ 64 gives 0 -/
 
+/-- `a << n` (op_pop.cpp) for every displacement: zero fill; a negative `n` shifts right by `-n`; `|n| ≥ 64` gives 0 — the reference manual's rule, on the 64-bit pattern. -/
 theorem shl_spec (a n : Int64) : (Num.ishl a n).toInt = Spec.shl a.toInt n.toInt := by
   unfold Num.ishl Spec.shl
   have c1 : (n ≥ 64) ↔ n.toInt ≥ 64 := ge_iff n 64
@@ -120,6 +130,7 @@ theorem shl_spec (a n : Int64) : (Num.ishl a n).toInt = Spec.shl a.toInt n.toInt
       have : (-n.toInt).toNat % 64 = (-n.toInt).toNat := by omega
       rw [this, Nat.shiftRight_eq_div_pow]
 
+/-- `a >> n` (op_pus.cpp) for every displacement: logical (zero-fill) right shift; a negative `n` shifts left by `-n`; `|n| ≥ 64` gives 0. -/
 theorem shr_spec (a n : Int64) : (Num.ishr a n).toInt = Spec.shr a.toInt n.toInt := by
   unfold Num.ishr Spec.shr
   have c1 : (n ≥ 64) ↔ n.toInt ≥ 64 := ge_iff n 64
@@ -145,6 +156,7 @@ example : (Num.ishl 1 64).toInt = 0 ∧ (Num.ishr (-1) 1).toInt = 92233720368547
 
 /-! ### ** : exact power modulo 2^64 for every base and every non-negative exponent -/
 
+/-- `a ** n` for every base and every exponent `n ≥ 0` (op_exp.cpp, square-and-multiply in uint64_t): the exact power `a^n` reduced modulo 2^64. -/
 theorem pow_exact (a n : Int64) (hn : 0 ≤ n.toInt) :
     mapInt (Num.ipow a n) = .ok (Spec.pow a.toInt n.toInt.toNat) := by
   unfold Num.ipow
@@ -181,24 +193,362 @@ example : (0 : Int) ≤ (39 : Int64).toInt := by decide
 
 /-! ### & | ^ ~ act on all 64 bits -/
 
+/-- `a & b` (op_and.cpp) acts on all 64 bits of the two patterns. -/
 theorem and_bitwise (a b : Int64) : (Num.iand a b).toInt = Spec.band a.toInt b.toInt := by
   unfold Num.iand Spec.band
   rw [pattern_toInt, pattern_toInt, ← UInt64.toNat_and, ← Int64.toUInt64_and]
   have := toInt_toInt64 (a &&& b).toUInt64
   simpa using this
 
+/-- `a | b` (op_ior.cpp) acts on all 64 bits. -/
 theorem or_bitwise (a b : Int64) : (Num.ior a b).toInt = Spec.bor a.toInt b.toInt := by
   unfold Num.ior Spec.bor
   rw [pattern_toInt, pattern_toInt, ← UInt64.toNat_or, ← Int64.toUInt64_or]
   have := toInt_toInt64 (a ||| b).toUInt64
   simpa using this
 
+/-- `a ^ b` (op_xor.cpp) acts on all 64 bits. -/
 theorem xor_bitwise (a b : Int64) : (Num.ixor a b).toInt = Spec.bxor a.toInt b.toInt := by
   unfold Num.ixor Spec.bxor
   rw [pattern_toInt, pattern_toInt, ← UInt64.toNat_xor, ← Int64.toUInt64_xor]
   have := toInt_toInt64 (a ^^^ b).toUInt64
   simpa using this
 
+/-- `~a` (op_not.cpp, `~*a1.integer()`): the complement of all 64 bits of the pattern. -/
+theorem not_bitwise (a : Int64) : (Num.inot a).toInt = Spec.bnot a.toInt := by
+  unfold Num.inot Spec.bnot
+  rw [pattern_toInt]
+  have := toInt_toInt64 (~~~a).toUInt64
+  rw [Int64.toUInt64_not, UInt64.toNat_not] at this
+  simpa using this
+
 example : (Num.iand (-1) 255).toInt = 255 ∧ (Num.ixor (-1) 1).toInt = -2 := by decide
+example : (Num.inot 0).toInt = -1 ∧ (Num.inot (-9223372036854775808)).toInt = 9223372036854775807 := by decide
+
+/-! ### `/` `%` : the two clauses of the statement spelled out (corollaries of `div_spec`, `mod_spec`) -/
+
+/-- A zero divisor raises the catchable DIVIDE_BY_ZERO, for every dividend (op_div.cpp, op_mod.cpp). -/
+theorem div_by_zero (a : Int64) :
+    Num.idiv a 0 = .err Gen.EXC_RT_DIVIDE_BY_ZERO ∧ Num.imod a 0 = .err Gen.EXC_RT_DIVIDE_BY_ZERO := ⟨rfl, rfl⟩
+
+/-- Every other pair is defined: a value is returned (never an error, never a C-level hazard), also
+for `MIN / -1` and `MIN % -1`, whose C expressions would be undefined. -/
+theorem div_mod_defined (a b : Int64) (hb : b ≠ 0) :
+    (∃ q, Num.idiv a b = .ok q ∧ q.toInt = Spec.wrap (Int.tdiv a.toInt b.toInt)) ∧
+    (∃ r, Num.imod a b = .ok r ∧ r.toInt = Spec.wrap (Int.tmod a.toInt b.toInt)) := by
+  have hb' : b.toInt ≠ 0 := by
+    intro h; apply hb; apply Int64.toInt_inj.mp; rw [h]; rfl
+  have hd := div_spec a b
+  have hm := mod_spec a b
+  unfold Spec.div at hd; unfold Spec.mod at hm
+  rw [if_neg hb'] at hd hm
+  constructor
+  · cases h : Num.idiv a b with
+    | ok q => rw [h] at hd; exact ⟨q, rfl, Res.ok.inj hd⟩
+    | err c x => rw [h] at hd; cases hd
+    | haz x => rw [h] at hd; cases hd
+    | unmodelled => rw [h] at hd; cases hd
+  · cases h : Num.imod a b with
+    | ok q => rw [h] at hm; exact ⟨q, rfl, Res.ok.inj hm⟩
+    | err c x => rw [h] at hm; cases hm
+    | haz x => rw [h] at hm; cases hm
+    | unmodelled => rw [h] at hm; cases hm
+
+example : (-9223372036854775808 : Int64) ≠ 0 ∧ (-1 : Int64) ≠ 0 := by decide
+example : mapInt (Num.imod (-9223372036854775808) (-1)) = .ok 0 := by decide
+
+/-! ### The operators as the interpreter dispatches them (`evalBin`/`evalUn`, Model/Ops.lean) -/
+
+/-- The `Num` function each integer operator of the statement is, on two integer values. -/
+def intOp : BinOp → Option (Int64 → Int64 → Res Int64)
+  | .add => some fun a b => .ok (Num.iadd a b)
+  | .sub => some fun a b => .ok (Num.isub a b)
+  | .mul => some fun a b => .ok (Num.imul a b)
+  | .div => some Num.idiv
+  | .mod => some Num.imod
+  | .exp => some Num.ipow
+  | .and => some fun a b => .ok (Num.iand a b)
+  | .ior => some fun a b => .ok (Num.ior a b)
+  | .xor => some fun a b => .ok (Num.ixor a b)
+  | .pop => some fun a b => .ok (Num.ishl a b)
+  | .pus => some fun a b => .ok (Num.ishr a b)
+  | _ => none
+
+/-- On two integer values `+ - * / % ** & | ^ << >>` of the interpreter ARE the `Num` functions the
+theorems above speak about (so those theorems are about what `evalBin`, the function the driver
+executes against the C++, returns), and the result is an integer. -/
+theorem evalBin_int (op : BinOp) (f : Int64 → Int64 → Res Int64) (h : intOp op = some f) (a b : Int64)
+    (same : Bool) : evalBin op (.int a) (.int b) same = intRes (f a b) := by
+  cases op <;> simp only [intOp, Option.some.injEq, reduceCtorEq] at h <;> subst h <;>
+    first | rfl | exact bind_intRes _
+
+/-- **Totality of the integer operators**: for all operands each of `+ - * / % ** & | ^ << >>` returns an
+integer, except that DIVIDE_BY_ZERO is raised by `/` and `%` on a zero divisor and by `0 ** n` with `n < 0`;
+no other error, no C-level hazard (overflow, out-of-range shift, MIN / -1), nothing unmodelled. -/
+theorem int_ops_total (op : BinOp) (f : Int64 → Int64 → Res Int64) (h : intOp op = some f) (a b : Int64) :
+    (∃ r, f a b = .ok r) ∨
+    (f a b = .err Gen.EXC_RT_DIVIDE_BY_ZERO ∧ ((b = 0 ∧ (op = .div ∨ op = .mod)) ∨ (op = .exp ∧ a = 0 ∧ b < 0))) := by
+  cases op <;> simp only [intOp, Option.some.injEq, reduceCtorEq] at h <;> subst h
+  all_goals first
+    | exact Or.inl ⟨_, rfl⟩
+    | skip
+  · unfold Num.idiv
+    split
+    · rename_i hb; exact Or.inr ⟨rfl, Or.inl ⟨by simpa using hb, Or.inl rfl⟩⟩
+    · split <;> exact Or.inl ⟨_, rfl⟩
+  · unfold Num.ipow
+    split
+    · rename_i hn
+      split
+      · rename_i ha; exact Or.inr ⟨rfl, Or.inr ⟨rfl, by simpa using ha, hn⟩⟩
+      · split
+        · exact Or.inl ⟨_, rfl⟩
+        · split <;> exact Or.inl ⟨_, rfl⟩
+    · exact Or.inl ⟨_, rfl⟩
+  · unfold Num.imod
+    split
+    · rename_i hb; exact Or.inr ⟨rfl, Or.inl ⟨by simpa using hb, Or.inr rfl⟩⟩
+    · split <;> exact Or.inl ⟨_, rfl⟩
+
+/-- The integer operators on two operands of type integer — integers or typed nulls — yield type integer
+(a value or a null), for ALL such values. -/
+theorem integer_is_integer (op : BinOp) (f : Int64 → Int64 → Res Int64) (h : intOp op = some f)
+    (a1 a2 v : Val) (same : Bool) (h1 : a1.type.major = .int) (h2 : a2.type.major = .int)
+    (he : evalBin op a1 a2 same = .ok v) : v.type = Ty.int := by
+  cases op <;> simp only [intOp, reduceCtorEq] at h <;>
+    simp only [evalBin, opSub, opMul, opDiv, opExp, opMod] at he <;> first
+    | exact arith_int _ _ _ _ _ _ _ h1 h2 he
+    | exact bitwise_int _ _ _ _ he
+    | skip
+  unfold opAdd at he
+  simp only at he
+  split at he
+  · simp [inv] at he
+  · split at he
+    · exfalso; simp_all
+    · exfalso; simp_all
+    · exfalso; simp_all
+    · exact arith_int _ _ _ _ _ _ _ h1 h2 he
+
+/-- Unary minus and `~` on an integer value. -/
+theorem evalUn_int (a : Int64) :
+    evalUn .neg (.int a) = .ok (.int (Num.ineg a)) ∧ evalUn .not (.int a) = .ok (.int (Num.inot a)) ∧
+    evalUn .pos (.int a) = .ok (.int a) := ⟨rfl, rfl, rfl⟩
+
+example : evalBin .exp (.int 3) (.int 39) = .ok (.int 4052555153018976267) := by
+  rw [evalBin_int .exp Num.ipow rfl, show Num.ipow 3 39 = .ok 4052555153018976267 by decide]; rfl
+example : evalBin .div (.int 1) (.int 0) = .err Gen.EXC_RT_DIVIDE_BY_ZERO := rfl
+
+/-! ### An operation with a decimal operand is carried out in double precision and yields a decimal -/
+
+/-- The arithmetic operators of the statement. -/
+def isArith : BinOp → Bool
+  | .add | .sub | .mul | .div | .exp | .mod => true
+  | _ => false
+
+/-- The double-precision operation each arithmetic operator applies. `Num.fadd x y = bits (f x + f y)`
+etc. where `f = Float.ofBits` and `+` is Lean's `Float` addition, i.e. the C `double` operator (IEEE-754
+binary64): the IEEE arithmetic itself is executed, tied bit-exactly to the C++ by the correspondence
+run, not reasoned about. `/` and `%` test the divisor for ±0 first. -/
+def fop : BinOp → Num.F64 → Num.F64 → Res Num.F64
+  | .add => fun x y => .ok (Num.fadd x y)
+  | .sub => fun x y => .ok (Num.fsub x y)
+  | .mul => fun x y => .ok (Num.fmul x y)
+  | .div => fdivChecked
+  | .exp => fun x y => .ok (Num.fpow x y)
+  | .mod => fmodChecked
+  | _ => fun _ _ => .unmodelled
+
+/-- The conversion `(double)i` applied to an integer operand of a mixed pair. -/
+def toDouble (i : Int64) : Num.F64 := Num.bits i.toFloat
+
+/-- decimal ∘ decimal: the double operation on the two payloads, result a decimal (op_*.cpp, NUMERIC×NUMERIC). -/
+theorem decimal_decimal (op : BinOp) (h : isArith op = true) (x y : Num.F64) (same : Bool) :
+    evalBin op (.num x) (.num y) same = numRes (fop op x y) := by
+  cases op <;> first | exact absurd h (by decide) | rfl | exact bind_numRes _
+
+/-- decimal ∘ integer: the integer is converted to double, then as above; result a decimal. -/
+theorem decimal_integer (op : BinOp) (h : isArith op = true) (x : Num.F64) (y : Int64) (same : Bool) :
+    evalBin op (.num x) (.int y) same = numRes (fop op x (toDouble y)) := by
+  cases op <;> first | exact absurd h (by decide) | rfl | exact bind_numRes _
+
+/-- integer ∘ decimal. -/
+theorem integer_decimal (op : BinOp) (h : isArith op = true) (x : Int64) (y : Num.F64) (same : Bool) :
+    evalBin op (.int x) (.num y) same = numRes (fop op (toDouble x) y) := by
+  cases op <;> first | exact absurd h (by decide) | rfl | exact bind_numRes _
+
+/-- Totality of the decimal operations: a decimal is returned except for `/` and `%` with a zero
+divisor (±0.0), which raise DIVIDE_BY_ZERO; never another error, never a hazard. -/
+theorem fop_total (op : BinOp) (h : isArith op = true) (x y : Num.F64) :
+    fop op x y =
+      if (op = .div ∨ op = .mod) ∧ Num.isZero y = true then .err Gen.EXC_RT_DIVIDE_BY_ZERO
+      else .ok (match op with
+        | .add => Num.fadd x y | .sub => Num.fsub x y | .mul => Num.fmul x y | .div => Num.fdiv x y
+        | .exp => Num.fpow x y | _ => Num.fmod x y) := by
+  cases op <;> first
+    | exact absurd h (by decide)
+    | rfl
+    | (simp only [fop, fdivChecked, fmodChecked, true_or, or_true, true_and])
+
+/-- Unary minus and plus of a decimal are decimals. -/
+theorem evalUn_decimal (x : Num.F64) :
+    evalUn .neg (.num x) = .ok (.num (Num.fneg x)) ∧ evalUn .pos (.num x) = .ok (.num x) := ⟨rfl, rfl⟩
+
+/-- **An operation with a decimal operand yields a decimal**, at full generality: for EVERY pair of
+values (nulls, typed nulls, strings, tables, tuples, … included) of which one has type decimal, whatever
+`+ - * / % **` returns — a number or a null — has type decimal (level 0). (When the other operand is
+not numeric nothing is returned: the operator raises.) -/
+theorem mixed_is_decimal (op : BinOp) (h : isArith op = true) (a1 a2 v : Val) (same : Bool)
+    (hd : a1.type.major = .num ∨ a2.type.major = .num) (he : evalBin op a1 a2 same = .ok v) :
+    v.type.major = .num ∧ v.type.level = 0 := by
+  cases op <;> first
+    | exact absurd h (by decide)
+    | (simp only [evalBin, opSub, opMul, opDiv, opExp, opMod] at he; exact arith_decimal _ _ _ _ _ _ _ hd he)
+    | skip
+  -- `+` has the string cells in front of the arithmetic ones
+  unfold evalBin opAdd at he
+  simp only at he
+  split at he
+  · simp [inv] at he
+  · split at he
+    · exfalso; simp_all
+    · exfalso; simp_all
+    · exfalso; simp_all
+    · exact arith_decimal _ _ _ _ _ _ _ hd he
+
+/-- The parser's static type agrees: a decimal operand with an integer or decimal one types the node decimal. -/
+theorem typeBin_decimal (op : BinOp) (h : isArith op = true) (t1 t2 : Ty)
+    (h1 : t1.major = .num ∨ t1.major = .int) (h2 : t2.major = .num ∨ t2.major = .int)
+    (hd : t1.major = .num ∨ t2.major = .num) : typeBin op t1 t2 = Ty.num := by
+  cases op <;> first
+    | exact absurd h (by decide)
+    | (rcases h1 with h1 | h1 <;> rcases h2 with h2 | h2 <;> simp_all [typeBin])
+
+example : evalBin .add (.int 1) (.num 0x3ff8000000000000) = .ok (.num (Num.fadd (toDouble 1) 0x3ff8000000000000)) := rfl
+example : evalBin .div (.num 0x3ff0000000000000) (.num 0x8000000000000000) = .err Gen.EXC_RT_DIVIDE_BY_ZERO := by
+  rw [decimal_decimal .div rfl, fop_total .div rfl, show Num.isZero 0x8000000000000000 = true by decide]; rfl
+example : evalBin .mul (.null Ty.none) (.num 0) = .ok (.null Ty.num) ∧ (Val.num 0).type.major = .num := ⟨rfl, rfl⟩
+
+/-! ### int(decimal): succeeds exactly when the value lies in the integer range -/
+
+/-- **`int(d)` for ALL 2^64 bit patterns** (builtin_int.cpp NUMERIC → Model/Num.lean `intOfDecimal`,
+which tests sign / exponent / mantissa fields of the pattern). Against the independent specification
+Spec/Float.lean — the exact value of the double `b` is `scaled b / 2^1074` —: the conversion succeeds
+exactly when `b` is a number (not NaN, not ±infinity) whose value `v` satisfies −2^63 ≤ v < 2^63, and it
+then returns `v` truncated toward zero, exactly; in every other case it raises OUT_OF_RANGE. It never
+reaches the C-level undefined conversion (`Hazard.floatToInt`). -/
+theorem int_of_decimal_spec (b : UInt64) :
+    mapInt (Num.intOfDecimal b) = ofIRes (Spec.F64.intOf b.toNat) := by
+  unfold Num.intOfDecimal Spec.F64.intOf
+  by_cases hfin : Num.expo b = 2047
+  · have e1 : decide (Num.expo b < 1086) = false := by simp [hfin]
+    have e2 : (b == 0xc3e0000000000000) = false := by
+      rw [eq_minTwo63_iff, ← expo_eq, hfin]; simp
+    have hspec : ¬ (Spec.F64.isFinite b.toNat ∧ Spec.F64.inIntRange b.toNat) := by
+      intro h; exact h.1 (by rw [← expo_eq]; exact hfin)
+    rw [if_neg hspec]
+    simp only [e1, e2]
+    cases Num.sign b <;> cases Num.isNaN b <;> rfl
+  · have hn : Num.isNaN b = false := by simp [Num.isNaN, hfin]
+    have hf : Spec.F64.isFinite b.toNat := by unfold Spec.F64.isFinite; rw [← expo_eq]; exact hfin
+    have hc : ((!Num.sign b || decide (Num.expo b < 1086) || b == 0xc3e0000000000000) &&
+          (Num.sign b || decide (Num.expo b < 1086))) = decide (Spec.F64.inIntRange b.toNat) := by
+      rw [eq_minTwo63_iff, Bool.decide_and, ← sign_eq, range_bool, sign_eq, ← Bool.decide_and, ← Bool.decide_or,
+        expo_eq]
+      exact (decide_eq_decide.mpr (inIntRange_iff b.toNat)).symm
+    simp only [hn, Bool.not_false, Bool.true_and, hc, truncInt_eq b hfin]
+    by_cases hr : Spec.F64.inIntRange b.toNat
+    · have hb := trunc_bounds b.toNat hr
+      simp only [hr, decide_true, Bool.not_true, Bool.false_eq_true, if_false, hf, and_self, if_true, mapInt, ofIRes]
+      rw [Int64.toInt_ofInt_of_le hb.1 hb.2]
+    · simp [hr, mapInt, ofIRes]
+
+/-- The specification itself on the boundary patterns (kernel evaluation of Spec/Float.lean): 1.0 is one
+unit·2^1074, the smallest subnormal is one unit; 2.5 ↦ 2; 2^63 is out of range, −2^63 is in range; +inf is rejected. -/
+example :
+    Spec.F64.scaled 0x3ff0000000000000 = Spec.F64.unit ∧ Spec.F64.scaled 1 = 1 ∧
+    Spec.F64.trunc 0x4004000000000000 = 2 ∧ Spec.F64.trunc 0xc004000000000000 = -2 ∧
+    Spec.F64.intOf 0x43e0000000000000 = .outOfRange ∧
+    Spec.F64.intOf 0xc3e0000000000000 = .val (-9223372036854775808) ∧
+    Spec.F64.intOf 0x7ff0000000000000 = .outOfRange := by decide +kernel
+
+/-- The same statement in the form of Spec/Arith.lean (`Spec.intOfDecimal`: the *truncated* value lies in
+the range): the two formulations coincide on doubles (`Lemmas.intOf_eq_trunc_form`). -/
+theorem int_of_decimal_spec_trunc (b : UInt64) :
+    mapInt (Num.intOfDecimal b) = ofIRes (Spec.intOfDecimal (Spec.F64.truncOpt b.toNat)) := by
+  rw [int_of_decimal_spec, intOf_eq_trunc_form]
+
+/-- Success case spelled out. -/
+theorem int_of_decimal_ok (b : UInt64) (h : Spec.F64.isFinite b.toNat ∧ Spec.F64.inIntRange b.toNat) :
+    ∃ r, Num.intOfDecimal b = .ok r ∧ r.toInt = Spec.F64.trunc b.toNat := by
+  have hs := int_of_decimal_spec b
+  unfold Spec.F64.intOf at hs
+  rw [if_pos h] at hs
+  cases hr : Num.intOfDecimal b with
+  | ok r => rw [hr] at hs; exact ⟨r, rfl, Res.ok.inj hs⟩
+  | err c x => rw [hr] at hs; cases hs
+  | haz x => rw [hr] at hs; cases hs
+  | unmodelled => rw [hr] at hs; cases hs
+
+/-- Failure case spelled out: NaN, ±infinity and every value outside [−2^63, 2^63) raise OUT_OF_RANGE. -/
+theorem int_of_decimal_out_of_range (b : UInt64)
+    (h : ¬ (Spec.F64.isFinite b.toNat ∧ Spec.F64.inIntRange b.toNat)) :
+    Num.intOfDecimal b = .err Gen.EXC_RT_OUT_OF_RANGE := by
+  have hs := int_of_decimal_spec b
+  unfold Spec.F64.intOf at hs
+  rw [if_neg h] at hs
+  cases hr : Num.intOfDecimal b with
+  | ok r => rw [hr] at hs; cases hs
+  | err c x =>
+    rw [hr] at hs
+    simp only [mapInt, ofIRes] at hs
+    injection hs with h1 h2
+    rw [h1, h2]
+  | haz x => rw [hr] at hs; cases hs
+  | unmodelled => rw [hr] at hs; cases hs
+
+/-- The built-in `int(x)` applied to a decimal argument (builtin_int.cpp, case NUMERIC — Model/Builtins.lean
+`biInt`, the function the driver runs) IS this conversion: an integer value on success, the error unchanged
+otherwise. With `int_of_decimal_ok` / `int_of_decimal_out_of_range`: `int(d)` succeeds exactly when the value
+of `d` lies in the integer range and raises OUT_OF_RANGE otherwise. -/
+theorem builtin_int_decimal (d : UInt64) :
+    biInt (m := Res) [pure (Val.num d)] = intRes (Num.intOfDecimal d) := by
+  show (Num.intOfDecimal d >>= fun i => pure (Val.int i)) = _
+  exact bind_intRes _
+
+/-- `Value::toInteger`, the range-checked conversion the built-ins and members use for decimal
+positions and counts (Model/Builtins.lean `castToInt`), is the same function. -/
+theorem castToInt_eq (b : UInt64) : castToInt b = Num.intOfDecimal b := by
+  by_cases h : Spec.F64.isFinite b.toNat ∧ Spec.F64.inIntRange b.toNat
+  · obtain ⟨r, hr, hv⟩ := int_of_decimal_ok b h
+    have hfin : Num.expo b ≠ 2047 := by rw [expo_eq]; exact h.1
+    have hb := trunc_bounds b.toNat h.2
+    rw [hr]
+    unfold castToInt
+    rw [truncInt_eq b hfin]
+    simp only [hb, and_self, if_true]
+    congr 1
+    apply Int64.toInt_inj.mp
+    rw [Int64.toInt_ofInt_of_le hb.1 hb.2, hv]
+  · rw [int_of_decimal_out_of_range b h]
+    unfold castToInt
+    by_cases hfin : Num.expo b = 2047
+    · have : Num.truncInt b = none := by simp [Num.truncInt, hfin]
+      rw [this]
+    · have hf : Spec.F64.isFinite b.toNat := by unfold Spec.F64.isFinite; rw [← expo_eq]; exact hfin
+      have hr : ¬ Spec.F64.inIntRange b.toNat := fun x => h ⟨hf, x⟩
+      rw [truncInt_eq b hfin]
+      simp only [trunc_out b.toNat hr, if_false]
+
+/-- Non-vacuity on the boundary patterns: 2^63 is out of range, −2^63 and the largest double below 2^63
+are in range, 2.5 and −2.5 truncate toward zero, NaN / ±inf are rejected. -/
+example :
+    Num.intOfDecimal 0x43e0000000000000 = .err Gen.EXC_RT_OUT_OF_RANGE ∧
+    mapInt (Num.intOfDecimal 0xc3e0000000000000) = .ok (-9223372036854775808) ∧
+    mapInt (Num.intOfDecimal 0x43dfffffffffffff) = .ok 9223372036854774784 ∧
+    mapInt (Num.intOfDecimal 0x4004000000000000) = .ok 2 ∧
+    mapInt (Num.intOfDecimal 0xc004000000000000) = .ok (-2) ∧
+    Num.intOfDecimal 0x7ff8000000000000 = .err Gen.EXC_RT_OUT_OF_RANGE ∧
+    Num.intOfDecimal 0xfff0000000000000 = .err Gen.EXC_RT_OUT_OF_RANGE := by decide
 
 end BlocV.C03
